@@ -500,11 +500,36 @@ class C10(Check):
             "operations or about to start a new operation when the parent returns; more top-level work follows; non-trivial iff "
             ">=1 branch was still alive when its parent's call returned")
     base_profile = {"weights": {"parallel": 6, "map": 3, "step": 6, "child": 2, "wait": 1, "callback": 0, "wfc": 0, "invoke": 0,
-                                "wfcond": 0}, "swarm": False, "blocks": [0, 0.05, 0.5, 2.0, 4.0], "cfg_p": 1.0, "max_ops": 16,
-                    "fault_kinds": ["crash-api", "crash-step"], "lines_p": 0.6}
+                                "wfcond": 4, "pause": 3}, "swarm": False, "blocks": [0, 0.05, 0.5, 2.0, 4.0], "cfg_p": 1.0, "max_ops": 16,
+                    "fault_kinds": ["crash-api", "crash-step", "crash-fn", "crash-fn"], "lines_p": 0.6}
 
     def tune(self, cfg, prof, rng):
         cfg["drain"] = rng.choice([2.0, 6.0])
+        if rng.random() < 0.15:
+            # An orphan that arrives at an operation which a dead invocation left STARTED: k-1 fast branches, a late finisher
+            # (wait, then a slow step: the wait has elapsed when the execution is re-invoked, so it finishes EARLIER then) and a
+            # victim that spends time in plain user code before an operation whose function takes time (a crash inside that
+            # function leaves it STARTED). min_successful = k: the late finisher decides the policy.
+            w_, b_ = rng.choice([2, 4]), rng.choice([2, 3])
+            p_ = b_ + rng.choice([1.0, 1.5, 2.5])
+            blk = rng.choice([1.0, 2.0])
+            kind = rng.choice(["wfcond", "wfcond", "step", "child"])
+            if kind == "wfcond":
+                x = {"op": "wfcond", "check": {"attempts": [{"do": "ret", "v": ["int", 1], "block": blk}]}, "strategy": [{"stop": 1}],
+                     "initial": ["int", 0]}
+            elif kind == "step":
+                x = {"op": "step", "fn": {"attempts": [{"do": "ret", "v": ["int", 1], "block": blk}]}}
+            else:
+                x = {"op": "child", "body": [{"op": "step", "fn": {"attempts": [{"do": "ret", "v": ["int", 1], "block": blk}]}}]}
+            fast = [{"body": [{"op": "step"}]} for _ in range(rng.choice([0, 1, 2]))]
+            late = {"body": [{"op": "wait", "s": w_}, {"op": "step", "fn": {"attempts": [{"do": "ret", "v": ["int", 2], "block": float(b_)}]}}]}
+            victim = {"body": [{"op": "pause", "s": p_}, x, {"op": "step"}]}
+            brs = fast + [late, victim]
+            rng.shuffle(brs)
+            cfg["program"] = {"body": [{"op": "parallel", "branches": brs, "cfg": {"min": len(fast) + 1}}, {"op": "step"}]}
+            cfg["latency"] = rng.choice([[0.001, 0.002], [0.001, 0.05], [0.01, 0.3]])
+            cfg.pop("limits", None)
+            return
         if rng.random() < 0.6:
             # slow acknowledgements: an orphan's asynchronous START is still unacknowledged when its parent completes
             cfg["latency"] = rng.choice([[0.05, 1.5], [0.5, 4.0], [1.0, 3.0]])
@@ -561,7 +586,7 @@ class C11(Check):
     rule = ("C01 workload, in 35% of cases with a custom SerDes on 1-3 step / wait_for_condition / child / callback statements whose "
             "k-th serialize or deserialize call fails (scripted); the backend's lifecycle automaton is run over the concatenated "
             "update stream of all invocations; non-trivial iff >=2 invocations contributed updates")
-    base_profile = {"amo_p": 0.2}
+    base_profile = {"amo_p": 0.2, "fault_kinds": ["crash-api", "crash-fn", "crash-step", "spurious", "apierr-retry", "apierr", "apierr"]}
 
     def tune(self, cfg, prof, rng):
         add_flaky_serdes(cfg, rng, 0.35)
@@ -592,7 +617,7 @@ class C12(Check):
     base_profile = {"amo_p": 0.15, "fail_p": 0.75, "try_p": 0.9, "swarm": False, "max_ops": 9, "top_hi": 4,
                     "weights": {"step": 10, "parallel": 2, "map": 1, "child": 1, "wait": 1, "callback": 0, "wfc": 1, "invoke": 0,
                                 "wfcond": 0, "log": 0},
-                    "fault_kinds": ["crash-api", "crash-fn", "crash-step", "spurious"]}
+                    "fault_kinds": ["crash-api", "crash-fn", "crash-step", "spurious", "apierr-retry"]}
 
     def oracle(self, ix, cfg, golden):
         return oracles.check_c12(ix, cfg)
@@ -625,7 +650,7 @@ class C13(Check):
     base_profile = {"swarm": False, "max_ops": 8, "top_hi": 4, "check_fail_p": 0.15,
                     "weights": {"step": 3, "wfcond": 8, "parallel": 2, "map": 1, "child": 1, "wait": 1, "callback": 0, "wfc": 0,
                                 "invoke": 0, "log": 0},
-                    "fault_kinds": ["crash-api", "crash-fn", "crash-step", "spurious"]}
+                    "fault_kinds": ["crash-api", "crash-fn", "crash-step", "spurious", "apierr-retry"]}
 
     def oracle(self, ix, cfg, golden):
         return oracles.check_c13(ix, cfg)
@@ -665,7 +690,7 @@ class C14(Check):
     base_profile = {"swarm": False, "max_ops": 9, "top_hi": 5,
                     "weights": {"step": 3, "callback": 6, "wfc": 5, "invoke": 6, "parallel": 2, "map": 1, "child": 1, "wait": 1,
                                 "wfcond": 0, "log": 0},
-                    "fault_kinds": ["crash-api", "crash-fn", "crash-step", "spurious"]}
+                    "fault_kinds": ["crash-api", "crash-fn", "crash-step", "spurious", "apierr-retry"]}
 
     def oracle(self, ix, cfg, golden):
         return oracles.check_c14(ix, cfg)
@@ -1050,8 +1075,11 @@ class C16(Check):
             per = max(1, ck // n)
             brs = []
             for b in range(n):
-                if rng.random() < 0.2:
-                    brs.append({"body": [{"op": "raise", "cls": "ValueError", "msg": "bad"}]})
+                if rng.random() < 0.25:
+                    if rng.random() < 0.5:
+                        brs.append({"body": [{"op": "raise", "cls": "ValueError", "msg": "bad"}]})
+                    else:  # the result is oversized because of what the failed branches report
+                        brs.append({"body": [{"op": "raise", "cls": "ValueError", "size": max(1, rng.choice([per, ck + 5, 2 * ck]))}]})
                 else:
                     brs.append({"body": [{"op": "step"}], "ret": ["big", max(1, rng.choice([per - 80, per - 10, per, per + 10, per + 200, ck + 5, 2 * ck]))]})
             c = {"tol": n}
@@ -1173,6 +1201,19 @@ class C17(Check):
             body.append({"op": "wait", "s": 2})
             body.append({"op": "log"})
             body.append({"op": "step", "fn": {"attempts": [{"do": "ret", "v": ["int", 1]}], "log": True}})
+            cfg["limits"] = {"ckpt": rng.choice([40, 100]), "resp": 6 * 1024 * 1024 - 50}
+        elif rng.random() < 0.2:
+            # a child context whose result is recorded as a summary: its body (with log calls before, between and after its
+            # operations) is traversed again on replay; what follows it is a retried step, so that the context can be the
+            # last completed unit of a resumed invocation
+            body = cfg["program"]["body"]
+            child = {"op": "child", "body": [{"op": "log"}, {"op": "step"}, {"op": "log"}, {"op": "step", "fn": {"attempts": [{"do": "ret", "v": ["int", 2]}], "log": True}},
+                                             {"op": "log"}], "ret": ["big", rng.choice([150, 400])]}
+            body.insert(rng.randrange(len(body) + 1), child)
+            body.append({"op": "log"})
+            body.append({"op": "step", "fn": {"attempts": [{"do": "raise", "cls": "ValueError", "msg": "transient"}, {"do": "ret", "v": ["int", 1]}], "log": True},
+                         "retry": {"kind": "script", "decisions": [{"retry": 2}, {"no": 1}]}})
+            body.append({"op": "log"})
             cfg["limits"] = {"ckpt": rng.choice([40, 100]), "resp": 6 * 1024 * 1024 - 50}
 
     def oracle(self, ix, cfg, golden):
